@@ -54,6 +54,15 @@
 //!   * sorts/merge.rs `update_loser_tree`, round-robin branch `(None, _)`: dropped the
 //!     `update_winner` call (exhausted cursor stays winner) → VIOLATION "1 rows returned, 2 expected"
 //!     on the first case.
+//!   * independently seeded defect /verif/seeded/C08-a (TopK `build_filter_expression`: the null-safe
+//!     prefix equality `col IS NULL OR col = NULL` only for NULLS FIRST keys): first MISSED by the
+//!     quick tier — the k-th reference row was almost never NULL on a non-last NULLS LAST key
+//!     (cells 17 % NULL, fetch uniform in 1..max_rows, mostly beyond the table). Generator
+//!     strengthened generally: per-key NULL density drawn from {14 %, 50 %, 80 %}, fetch drawn relative
+//!     to the generated row count (uniform in 1..=n plus a band near n); coverage labels
+//!     `topk:kth-row-null-on-nulls-{last,first}-prefix-key` (~100 each per quick run). Now VIOLATION
+//!     "position 85 of the top-111 holds keys [Null, Null, 2] … reference [Null, Null, 1]" after 892
+//!     cases; unchanged tree exits 0 on seeds 0-4 and 21-24.
 //!
 //! Deviations from DESIGN.md: fetch = 0 is only generated for the paths that accept it
 //! (SortPreservingMergeExec, pass-through SortExec, PartialSortExec); `SortExec::with_fetch(Some(0))`
